@@ -181,7 +181,7 @@ def run(ctx):
                        "taken from the sealed variant of the same definition"]
     quick = ctx.tier == "quick"
     c02.run_cfg(ctx, "Rules", "Rules_quick.cfg" if quick else "Rules_thorough.cfg", worker, "rules",
-                mk=lambda blocks: [(b, ctx.seed, 1 if quick else 25) for b in blocks])
+                mk=lambda blocks: [(b, ctx.seed, 1 if quick else 25) for b in blocks], shuffle=True)
     if not quick:
         ctx.exhaustive = False
     ctx.sample({"deviations": {"ft": "int1", "port": "vendor message 7168 not allowed"}, "expected": "rejected (width, port)"})
